@@ -6,6 +6,8 @@ namespace Kust.Reviewed
 
 def mapRangeSites : List (String × Nat × String) := [
   ("(*api/internal/accumulator.refVarTransformer).UnusedVars", 1, "collect-then-sort-or-set-algebra"),
+  ("(*api/internal/builtins.PatchJson6902TransformerPlugin).Transform", 1, "insert-into-map-or-sorted-later"),
+  ("(*api/internal/builtins.PatchTransformerPlugin).transformJson6902", 1, "insert-into-map-or-sorted-later"),
   ("(*api/types.Kustomization).FixKustomizationPreMarshalling", 1, "error-or-check-only"),
   ("(*api/types.VarSet).AsSlice", 1, "collect-then-sort-or-set-algebra"),
   ("(*api/types.VarSet).MergeSet", 1, "insert-into-map-or-sorted-later"),
@@ -14,7 +16,11 @@ def mapRangeSites : List (String × Nat × String) := [
   ("(*kyaml/kio.ByteReader).decode", 1, "sets-annotations-on-one-node (order-independent writes to distinct keys)"),
   ("(*kyaml/kio.LocalPackageReadWriter).Write", 2, "outside-build-domain (functions, package IO)"),
   ("(*kyaml/yaml.ObjectMeta).DeepCopyInto", 2, "insert-into-map-or-sorted-later"),
+  ("(*kyaml/yaml.PathMatcher).doIndexSeq", 1, "insert-into-map-or-sorted-later"),
+  ("(*kyaml/yaml.PathMatcher).visitElem", 1, "insert-into-map-or-sorted-later"),
+  ("(*kyaml/yaml.PathMatcher).visitEveryElem", 1, "insert-into-map-or-sorted-later"),
   ("(*kyaml/yaml.RNode).validateDataMap", 1, "error-or-check-only"),
+  ("(*kyaml/yaml.YFilter).UnmarshalYAML", 1, "outside-build-domain (functions, package IO)"),
   ("(kyaml/kio.LocalPackageWriter).Write", 3, "outside-build-domain (functions, package IO)"),
   ("(kyaml/runfn.RunFns).mergeContainerEnv", 1, "outside-build-domain (functions, package IO)"),
   ("(kyaml/runfn.RunFns).mergeExecEnv", 1, "outside-build-domain (functions, package IO)"),
@@ -33,7 +39,10 @@ def mapRangeSites : List (String × Nat × String) := [
   ("api/internal/accumulator.debug", 1, "error-or-check-only"),
   ("api/internal/accumulator.loadCrdTypeIntoConfig", 1, "insert-into-map-or-sorted-later"),
   ("api/internal/accumulator.makeConfigFromApiMap", 1, "insert-into-map-or-sorted-later"),
+  ("api/internal/plugins/builtinhelpers.makeStringToBuiltinPluginTypeMap", 2, "insert-into-map-or-sorted-later"),
   ("api/resource.mergeStringMaps", 1, "insert-into-map-or-sorted-later"),
+  ("api/types.CopyMap", 1, "insert-into-map-or-sorted-later"),
+  ("api/types.overrideMap", 1, "insert-into-map-or-sorted-later"),
   ("kyaml/fn/runtime/runtimeutil.StringToStorageMount", 1, "outside-build-domain (functions, package IO)"),
   ("kyaml/kio.determineAnnotationsFormat", 1, "insert-into-map-or-sorted-later"),
   ("kyaml/kio/kioutil.GetInternalAnnotations", 1, "insert-into-map-or-sorted-later"),
@@ -68,6 +77,7 @@ def panicSites : List (String × String × Nat × String) := [
   ("api/internal/utils.TimedCall", "panic", 1, "outside-build-domain (go plugins, vars)"),
   ("kyaml/openapi.initSchema", "panic", 2, "finding C12-K2 (invalid custom schema) / embedded asset"),
   ("kyaml/openapi.parseBuiltinSchema", "panic", 1, "embedded constant data only"),
+  ("kyaml/openapi/kubernetesapi/v1_21_2.MustAsset", "panic", 1, "embedded constant data only"),
   ("kyaml/openapi/kustomizationapi.MustAsset", "panic", 1, "embedded constant data only")
 ]
 
